@@ -398,3 +398,28 @@ PROPS["C05"] = {
                   "check vacuous, so this property is decided on the real clock only",
     "assumptions": ["time.Now() carries a monotonic reading on this platform"],
 }
+
+PROPS["C18"] = {
+    "title": "Connections spread over all resolved and mapped addresses, race-free",
+    "units": [{"name": "plain", "pkg": "lib", "run": "^TestC18"},
+              {"name": "race", "pkg": "lib", "run": "^TestC18", "race": True, "shards_quick": 2, "shards_thorough": 8}],
+    "rule": "rapid draws dial histories: 1..3 resolvable names with 1..8 addresses (IPv4 only, IPv6 only, mixed) "
+            "answered by an in-memory DNS server behind net.DefaultResolver, 0..3 connect-to mappings with 1..5 "
+            "replacements (IP literals or resolvable names), ttl in {-1,0,5ms,50ms}, DNSCaching/ConnectTo composed in "
+            "both orders together with Proxy/KeepAlive/Connections options, 1..600 (thorough 10^4) dials by 1..64 "
+            "goroutines through the transport's DialContext, recorded by a dial function that fails (no sockets). Plain "
+            "and -race binaries. Non-trivial = a host with >= 2 addresses in one family and >= 50 dials, or >= 2 "
+            "concurrent diallers; distinct = distinct case.",
+    "explanation": "Oracle: every dial of a call goes to an address currently resolved (or mapped) for the dialled "
+                   "name, one per IP family that has addresses; in every window of 60 x family-size consecutive dials to a "
+                   "name each of its addresses is dialled at least once (a uniform choice misses with probability < 1e-25: "
+                   "the stated false-alarm bound) - this is what 'the cached set never shrinks' means observably; "
+                   "connect-to after DNSCaching: each replacement used floor(n/k) or ceil(n/k) times, strict rotation for "
+                   "sequential dials, unmapped addresses unchanged; a race report touching vegeta's code is a violation.",
+    "technique": "model-based property test over dial histories with an in-memory DNS, statistical coverage bound, plain and under the race detector (rapid)",
+    "level_text": "generated-history search through the exported options with test doubles; the functional clauses are "
+                  "deterministic for sequential histories, the race clause is decided by stress under the race detector",
+    "level_note": "LocalAddr/KeepAlive(false) are excluded from the option subsets because they replace the recording "
+                  "dial function with the real dialer; which of the two family dials wins is network behaviour and out of scope",
+    "assumptions": ["golang.org/x/net/dns/dnsmessage and the pure-Go resolver of net answer from the harness's in-memory server"],
+}
